@@ -685,17 +685,45 @@ def run(ctx):
     for rel, q in sib:
         m = repo.mod(rel)
         f = m.func(q)
-        for iff in ast.walk(f):
-            if isinstance(iff, ast.If) and norm(iff.test).replace(" ", "").endswith("method=='PM6'") and iff.orelse and \
-                    any("beta" in norm(s) for s in iff.body):
-                def keys(block):
-                    ks = set()
-                    for s in block:
-                        for x in ast.walk(s):
-                            if isinstance(x, ast.Assign) and isinstance(x.targets[0], ast.Subscript) and isinstance(x.targets[0].slice, ast.Constant):
-                                ks.add(x.targets[0].slice.value)
-                    return ks
-                arms[(rel, q)] = (keys(iff.body), keys(iff.orelse), iff)
+        # the preparer may delegate to a helper of the same class / module (one level): look there as well
+        scopes_ = [f]
+        for c_ in calls_in(f):
+            nm_ = callee_attr(c_) if isinstance(c_.func, ast.Attribute) and norm(c_.func.value) in ("self", "cls") else (c_.func.id if isinstance(c_.func, ast.Name) else None)
+            if nm_:
+                for qq_, ff_ in m.functions.items():
+                    if qq_.split(".")[-1] == nm_ and ff_ is not f and ff_ not in scopes_ and "<locals>" not in qq_:
+                        scopes_.append(ff_)
+
+        def keys(block, depth=0):
+            ks = set()
+            for s in block:
+                for x in ast.walk(s):
+                    if isinstance(x, ast.Assign) and isinstance(x.targets[0], ast.Subscript) and isinstance(x.targets[0].slice, ast.Constant):
+                        ks.add(x.targets[0].slice.value)
+                    # for name in ("a", "b"): d[name] = ...
+                    if isinstance(x, ast.For) and isinstance(x.target, ast.Name) and isinstance(x.iter, (ast.Tuple, ast.List)) \
+                            and all(isinstance(e_, ast.Constant) and isinstance(e_.value, str) for e_ in x.iter.elts):
+                        if any(isinstance(y, ast.Assign) and isinstance(y.targets[0], ast.Subscript) and isinstance(y.targets[0].slice, ast.Name)
+                               and y.targets[0].slice.id == x.target.id for y in ast.walk(x)):
+                            ks |= {e_.value for e_ in x.iter.elts}
+                    # a helper that fills the dictionary
+                    if isinstance(x, ast.Call) and depth < 2:
+                        nm2 = callee_attr(x) if isinstance(x.func, ast.Attribute) and norm(x.func.value) in ("self", "cls") else (x.func.id if isinstance(x.func, ast.Name) else None)
+                        for qq_, ff_ in m.functions.items():
+                            if nm2 and qq_.split(".")[-1] == nm2 and "<locals>" not in qq_ and ff_ is not f:
+                                ks |= keys(ff_.body, depth + 1)
+            return ks
+        for sc_ in scopes_:
+            for iff in ast.walk(sc_):
+                if not (isinstance(iff, ast.If) and iff.orelse):
+                    continue
+                t_ = norm(iff.test).replace(" ", "")
+                pm6_arm, sp_arm = (iff.body, iff.orelse) if t_.endswith("method=='PM6'") else (iff.orelse, iff.body) if t_.endswith("method!='PM6'") else (None, None)
+                if pm6_arm is None:
+                    continue
+                kp_, ks_ = keys(pm6_arm), keys(sp_arm)
+                if "beta" in kp_ and (rel, q) not in arms:
+                    arms[(rel, q)] = (kp_, ks_, iff)
     if len(arms) != 3:
         raise AnalysisError(f"parameter preparers: {len(arms)} of 3 siblings recognised")
     ref = arms[(sib[0][0], sib[0][1])]
